@@ -1140,6 +1140,7 @@ func (app *App) ErrorHandler(ctx Ctx, err error) error {
 	var (
 		mountedErrHandler  ErrorHandler
 		mountedPrefixParts int
+		mountedPrefix      string
 	)
 
 	path := ctx.Path()
@@ -1166,9 +1167,11 @@ func (app *App) ErrorHandler(ctx Ctx, err error) error {
 		}
 		// innermost = longest prefix; distinct prefixes of one path differ in length,
 		// so the choice does not depend on the iteration order of the map
-		if len(prefix) > mountedPrefixParts {
+		// (two parameterised prefixes of one length can both contain the path: the smaller key wins)
+		if len(prefix) > mountedPrefixParts || (len(prefix) == mountedPrefixParts && prefix < mountedPrefix) {
 			mountedErrHandler = subApp.config.ErrorHandler
 			mountedPrefixParts = len(prefix)
+			mountedPrefix = prefix
 		}
 	}
 
